@@ -521,15 +521,138 @@ fn in_check_net(t: &mut Tape) -> Pos1 {
     p
 }
 
+/// the enemy pawn has just double-stepped next to one of our pawns, with the enemy king and
+/// a few of our pieces close by (mates by an en-passant capture, among others)
+fn ep_net(t: &mut Tape) -> Pos1 {
+    let mut p = Pos1::empty();
+    p.stm = WHITE;
+    let f = t.choose(8) as u8;
+    p.sq[sq(f, 4) as usize] = pc(BLACK, P);
+    p.ep = Some(f);
+    let cf = if f == 0 { 1 } else if f == 7 { 6 } else if t.choose(2) == 0 { f - 1 } else { f + 1 };
+    p.sq[sq(cf, 4) as usize] = pc(WHITE, P);
+    // enemy king near the capture square
+    for _ in 0..8 {
+        let kf = (f as i8 + t.range(0, 4) as i8 - 2).clamp(0, 7) as u8;
+        let kr = t.range(5, 7) as u8;
+        let s = sq(kf, kr);
+        if p.sq[s as usize] == EMPTY && s != sq(f, 5) && s != sq(f, 6) {
+            p.sq[s as usize] = pc(BLACK, K);
+            break;
+        }
+    }
+    let n = t.range(2, 5);
+    for _ in 0..n {
+        let k = *t.pick(&[Q, R, R, B, N, K, B]);
+        let nf = (f as i8 + t.range(0, 6) as i8 - 3).clamp(0, 7) as u8;
+        let nr = t.range(2, 7) as u8;
+        let s = sq(nf, nr);
+        if s == sq(f, 5) || s == sq(f, 6) {
+            continue;
+        }
+        if k == K {
+            if p.king_sq(WHITE).is_none() {
+                place(&mut p, s, WHITE, K);
+            }
+        } else {
+            place(&mut p, s, WHITE, k);
+        }
+    }
+    if p.king_sq(WHITE).is_none() {
+        if let Some(s) = rand_empty(t, &p, 0, 3) {
+            p.sq[s as usize] = pc(WHITE, K);
+        }
+    }
+    let n = t.range(0, 3);
+    for _ in 0..n {
+        let k = *t.pick(&[P, P, N, B, R]);
+        let nf = (f as i8 + t.range(0, 4) as i8 - 2).clamp(0, 7) as u8;
+        let nr = t.range(4, 7) as u8;
+        let s = sq(nf, nr);
+        if s != sq(f, 5) && s != sq(f, 6) {
+            place(&mut p, s, BLACK, k);
+        }
+    }
+    p
+}
+
+/// a mate by a capture that leaves next to no material: start from a position in which a
+/// cornered king is mated by king and two knights (or king and knight with an own blocker),
+/// then take the last move back as a capture
+fn bare_capture_mate(t: &mut Tape) -> Option<Pos1> {
+    for _ in 0..400 {
+        let mut p = Pos1::empty();
+        p.stm = BLACK;
+        let corner = *t.pick(&[0u8, 7, 56, 63]);
+        p.sq[corner as usize] = pc(BLACK, K);
+        let near = |t: &mut Tape, d: i8| -> u8 {
+            let f = (file_of(corner) as i8 + if file_of(corner) == 0 { t.range(0, d as u32) as i8 } else { -(t.range(0, d as u32) as i8) }).clamp(0, 7) as u8;
+            let r = (rank_of(corner) as i8 + if rank_of(corner) == 0 { t.range(0, d as u32) as i8 } else { -(t.range(0, d as u32) as i8) }).clamp(0, 7) as u8;
+            sq(f, r)
+        };
+        let wk = near(t, 2);
+        if !place(&mut p, wk, WHITE, K) {
+            continue;
+        }
+        let n1 = near(t, 3);
+        let n2 = near(t, 3);
+        if !place(&mut p, n1, WHITE, N) || !place(&mut p, n2, WHITE, N) {
+            continue;
+        }
+        if p.validity().is_err() || !p.in_check() || !p.legal_moves().is_empty() {
+            continue;
+        }
+        // mated: take back the last move of one of the knights as a capture
+        let mover = if t.choose(2) == 0 { n1 } else { n2 };
+        if !p.attackers(corner, WHITE).contains(&mover) {
+            continue;
+        }
+        let mut from_cands = Vec::new();
+        for s in 0..64u8 {
+            if p.sq[s as usize] == EMPTY {
+                let df = (file_of(s) as i8 - file_of(mover) as i8).abs();
+                let dr = (rank_of(s) as i8 - rank_of(mover) as i8).abs();
+                if (df == 1 && dr == 2) || (df == 2 && dr == 1) {
+                    from_cands.push(s);
+                }
+            }
+        }
+        if from_cands.is_empty() {
+            continue;
+        }
+        let from = *t.pick(&from_cands);
+        let victim = *t.pick(&[N, B, R, Q, P]);
+        if victim == P && (rank_of(mover) == 0 || rank_of(mover) == 7) {
+            continue;
+        }
+        let mut q = p.clone();
+        q.stm = WHITE;
+        q.sq[mover as usize] = pc(BLACK, victim);
+        q.sq[from as usize] = pc(WHITE, N);
+        q.hmc = 3;
+        q.fmn = 40;
+        if usable(&q) && q.mating_moves().contains(&Mv::new(from, mover, 0)) {
+            return Some(if t.choose(2) == 0 { q } else { q.mirror() });
+        }
+    }
+    None
+}
+
 /// G10: search a mixture of generators for a position with a mate in one of a drawn kind
 fn mate_hunt(t: &mut Tape) -> Pos1 {
-    let want = t.choose(9);
+    let want = t.choose(10);
     let mut fallback: Option<Pos1> = None;
-    let tries = if want == 5 || want == 8 { 1500 } else { 250 };
+    if want == 9 {
+        if let Some(p) = bare_capture_mate(t) {
+            return p;
+        }
+    }
+    let tries = if want == 5 || want == 8 || want == 2 { 1500 } else { 250 };
     for _ in 0..tries {
-        let which = if want == 5 || want == 8 { 6 } else { t.choose(6) };
+        let which = if want == 5 || want == 8 { 6 } else if want == 2 { 7 } else { t.choose(6) };
         let mut p = match which {
             6 => in_check_net(t),
+            7 => ep_net(t),
             0 | 1 => pawn_storm(t),
             2 => endgame(t),
             3 => sparse(t),
@@ -539,8 +662,8 @@ fn mate_hunt(t: &mut Tape) -> Pos1 {
         if t.choose(2) == 1 {
             p = p.mirror();
         }
-        if which == 3 {
-            // sparse() may set an ep marker: a mate by en passant needs one
+        if which == 3 || which == 7 {
+            // these generators set the ep marker themselves
         } else if want == 2 {
             draw_ep(t, &mut p);
         }
